@@ -2,7 +2,6 @@ package rules
 
 import (
 	"go/ast"
-	"go/constant"
 	"go/token"
 	"go/types"
 	"strings"
@@ -17,7 +16,7 @@ const (
 
 func init() {
 	register("C04", "other", "T6 WhoMayCall/single producer, T8 DecisionTable (loop shape, normalised), T15 ConstRelation (cap 100), T4 GuardedBy, T21 InjectiveEncoding",
-		"Decides the structure that makes building and processing agree on frames: one function (calcFrameIdx) produces both the frame assigned by Build and the frame compared with the claimed one in checkAndSaveEvent, and its only quorum test is forklessCausedByQuorumOn over the stored roots of that frame; its frame search (decided on the CFG, whatever loop form is used) starts at the self-parent's frame, alternates one quorum test with one step by one, evaluates the test only below the bound and ends only when the bound is reached or the test failed; on every build-mode path the bound read by the search is the self-parent's frame plus the constant 100 and on every check-mode path it is the claimed frame (reaching definitions per mode, so the Build cap cannot clamp processing), and a result of 0 becomes 1; a differing claimed frame leads only to ErrWrongFrame and the root is registered only afterwards; and the answer cannot depend on which events were built before: every built event is indexed under a temporary ID freshly sampled in Build (the SetID of a sample dominates the indexing and the frame computation) and that ID is an injective fixed-width function of a strictly increasing counter that nothing outside the increment restarts unless the restart is paired with an unconditional purge of the pair cache (directly, in an always-purging callee, or in every module implementation of DagIndexer.Reset), or every ID-keyed cache that Build can fill is purged when the unflushed index data is dropped. Equality of ForklessCause with the graph definition is not decided.",
+		"Decides the structure that makes building and processing agree on frames: one function (calcFrameIdx) produces both the frame assigned by Build and the frame compared with the claimed one in checkAndSaveEvent, and its only quorum test is forklessCausedByQuorumOn over the stored roots of that frame; its frame search (decided on the CFG, whatever loop form is used) starts at the self-parent's frame, alternates one quorum test with one step by one, evaluates the test only below the bound and ends only when the bound is reached or the test failed; on every build-mode path the bound read by the search is the self-parent's frame plus the constant 100 and on every check-mode path it is the claimed frame (reaching definitions per mode, so the Build cap cannot clamp processing), and a result of 0 becomes 1; a differing claimed frame leads only to ErrWrongFrame and the root is registered only afterwards; and the answer cannot depend on which events were built before: every built event is indexed under a temporary ID freshly sampled in Build (the SetID of a sample dominates the indexing and the frame computation) and that ID is an injective fixed-width function of a strictly increasing counter that nothing outside the increment restarts unless the restart is paired with an unconditional purge of the pair cache (directly, in an always-purging callee, or in every module implementation of DagIndexer.Reset), or every ID-keyed cache that Build can fill is purged when the unflushed index data is dropped. The search function, its quorum function and its two callers are located by what they do (the abft function that repeats a forkless-cause quorum test on a CFG cycle; the caller feeding SetFrame is the build side), so the mode may be a boolean parameter decided inside the search or start/bound values computed by the callers (then decided at the call sites, the self-parent's frame as a symbolic value through locals and helpers), and the quorum count may live in a helper or a bound callback; the frame compared with the claimed one is the search result on every path (reaching definitions). Roots (C04.roots): in the inlined view of Store.AddRoot every iteration of the loop over the frame slots that writes a root record also consults cache.FrameRoots, and the refresh is made inside that loop under the consulted key, so the quorum test never reads a cached root list that misses a registered root. Equality of ForklessCause with the graph definition is not decided.",
 		[]string{"math/big FillBytes / encoding/binary fixed-width contracts", "the event source returns the self-parent that was processed"},
 		runC04)
 }
@@ -138,125 +137,11 @@ func checkTmpID(c *core.Ctx) {
 }
 
 func runC04(c *core.Ctx) {
-	p := c.P
-	c.Clause("C04.single", func() {
-		calc := c.Fn(ordT + ".calcFrameIdx")
-		build := c.Fn(ordT + ".Build")
-		chk := c.Fn(ordT + ".checkAndSaveEvent")
-		// Build: SetFrame(value from calcFrameIdx(e, false))
-		sf := build.CallsMatching(func(cs *core.CallSite) bool { return methodNamed(cs.Name, "SetFrame") })
-		c.Need(len(sf) == 1, "Orderer.Build sets the frame once")
-		fv := varOf(build, sf[0].Call.Args[0])
-		okB := false
-		if fv != nil {
-			for _, a := range assignsToVar(build, fv) {
-				if call := isCallTo(build, a.RHS, ordT+".calcFrameIdx"); call != nil && a.RHS != nil {
-					if as, ok := a.Stmt.(*ast.AssignStmt); ok && len(as.Lhs) == 2 && varOf(build, as.Lhs[1]) == fv && isIdentNamed(call.Args[1], "false") && varOf(build, call.Args[0]) == build.Param(0) {
-						okB = true
-					}
-				}
-			}
-		}
-		c.Check(okB, "Build assigns calcFrameIdx(e, build mode)", "T6 single producer", sf[0].Pos(), "the frame set by Build is the second result of calcFrameIdx(e, false)", "Build's frame does not come from calcFrameIdx")
-		// checkAndSaveEvent: compares e.Frame() with calcFrameIdx(e, true)
-		var fi *types.Var
-		for _, a := range assignments(chk) {
-			if call := isCallTo(chk, a.RHS, ordT+".calcFrameIdx"); call != nil && a.RHS != nil {
-				if as, ok := a.Stmt.(*ast.AssignStmt); ok && len(as.Lhs) == 2 && isIdentNamed(call.Args[1], "true") {
-					fi = varOf(chk, as.Lhs[1])
-				}
-			}
-		}
-		c.Need(fi != nil, "checkAndSaveEvent computes the frame with calcFrameIdx(e, true)")
-		wrongFrame := func(ft core.Fact) bool {
-			cm, k := core.NormCmp(ft)
-			if !k || cm.R == nil || cm.Op != token.NEQ {
-				return false
-			}
-			is := func(a, b ast.Expr) bool {
-				call, ok := ast.Unparen(a).(*ast.CallExpr)
-				return ok && methodNamed(calleeName(chk, call), "Frame") && varOf(chk, b) == fi
-			}
-			return is(cm.L, cm.R) || is(cm.R, cm.L)
-		}
-		edges := edgesWithFact(chk, wrongFrame)
-		okR := len(edges) >= 1
-		for _, e := range edges {
-			if o, _ := edgeLeadsOnlyTo(chk, e.B, e.Succ, func(r *ast.ReturnStmt) bool {
-				if len(r.Results) < 1 {
-					return false
-				}
-				v, ok := chk.ObjOf(r.Results[0]).(*types.Var)
-				return ok && p.ObjName(v) == "abft.ErrWrongFrame"
-			}); !o {
-				okR = false
-			}
-		}
-		c.Check(okR, "claimed frame != computed frame => ErrWrongFrame", "T8 DecisionTable", chk.Pos(), "e.Frame() != frameIdx leads only to returning ErrWrongFrame", "an event with a wrong claimed frame can be accepted")
-		// the root is registered only when the frames agree
-		for _, ar := range chk.CallsTo("abft.Store.AddRoot") {
-			ok, wit := chk.GuardedBy(ar.Pt, func(ft core.Fact) bool { return wrongFrame(core.Fact{Expr: ft.Expr, Truth: !ft.Truth}) })
-			c.Check(ok, "root registered only after the frame check", "T4 GuardedBy", ar.Pos(), "AddRoot is reached only on the claimed == computed edge", "a root can be registered for an event that is then rejected: "+chk.DescribePath(wit))
-		}
-		c.ExpectAtLeast("AddRoot sites", len(chk.CallsTo("abft.Store.AddRoot")), 1)
-		// calcFrameIdx's only quorum test
-		q := calc.CallsTo(ordT + ".forklessCausedByQuorumOn")
-		c.Check(len(q) == 1, "one quorum test", "T6 WhoMayCall", calc.Pos(), "calcFrameIdx decides each step with forklessCausedByQuorumOn", "calcFrameIdx does not use exactly one forklessCausedByQuorumOn test")
-		for _, g := range p.FuncsInPkg("abft") {
-			if g != calc && g != build && g != chk && len(g.CallsTo(ordT+".calcFrameIdx")) > 0 {
-				c.Fail("calcFrameIdx called in "+short(g.Name), "T6 WhoMayCall", g.Pos(), "a second consumer of the frame computation")
-			}
-		}
-		// forklessCausedByQuorumOn: counts creators of the frame's roots that forkless-cause... e is forkless caused by root
-		fq := c.Fn(ordT + ".forklessCausedByQuorumOn")
-		okQ := false
-		// the first argument is the event's ID and the second a root's ID; either may have been read into a
-		// local first (event getters are pure), so single-definition locals are looked through
-		for _, cs := range fq.CallsTo("abft/dagidx.ForklessCause.ForklessCause") {
-			if len(cs.Call.Args) == 2 {
-				if a0 := c04MethodOn(fq, cs.Call.Args[0], "ID", fq.Param(0)); a0 != nil && len(a0.Args) == 0 {
-					_, pth := fieldPath(fq, resolveLocal(fq, cs.Call.Args[1]))
-					if len(pth) >= 1 && pth[len(pth)-1] == "abft/election.RootAndSlot.ID" {
-						okQ = true
-					}
-				}
-			}
-		}
-		c.Check(okQ, "quorum test asks ForklessCause(event, root)", "provenance", fq.Pos(), "ForklessCause(e.ID(), root.ID) over GetFrameRoots(f)", "the quorum test does not ask whether the event is forkless-caused by the frame's roots")
-		// every result is the counter's HasQuorum(): returned directly (or through a local), or the constant
-		// true on a path that has just seen HasQuorum() true (counting only adds weight, so it stays true)
-		isHasQ := func(x ast.Expr) bool {
-			return isCallTo(fq, resolveLocal(fq, x), "inter/pos.WeightCounter.HasQuorum") != nil
-		}
-		sawQuorum := func(ft core.Fact) bool {
-			cm, k := core.NormCmp(ft)
-			return k && cm.R == nil && cm.Op == token.EQL && isHasQ(cm.L)
-		}
-		okRet, nDirect := true, 0
-		posRet, whyRet := fq.Pos(), "the result is not the counter's quorum test"
-		for _, rp := range fq.ReturnPoints() {
-			r, _ := rp.Node().(*ast.ReturnStmt)
-			if r == nil || len(r.Results) != 1 {
-				okRet, posRet = false, posOf(rp)
-				continue
-			}
-			if isHasQ(r.Results[0]) {
-				nDirect++
-				continue
-			}
-			if cv, isConst := core.ConstVal(fq.Info(), r.Results[0]); isConst && cv.Kind() == constant.Bool && constant.BoolVal(cv) {
-				g, wit := fq.GuardedBy(rp, sawQuorum)
-				if g {
-					continue
-				}
-				whyRet = "true is returned on a path that has not seen HasQuorum() true: " + fq.DescribePath(wit)
-			}
-			okRet, posRet = false, r.Pos()
-		}
-		c.Check(okRet && nDirect >= 1, "quorum test returns HasQuorum()", "provenance", posRet, "every result is the weight counter's HasQuorum() (or true right after it was seen true)", whyRet)
-	})
+	c.Clause("C04.single", func() { c04Single(c) })
 
 	c.Clause("C04.loop", func() { c04Loop(c) })
 
 	c.Clause("C04.tmpid", func() { checkTmpID(c) })
+
+	c.Clause("C04.roots", func() { c04Roots(c) })
 }
